@@ -615,7 +615,7 @@ func cpLetters(r *Rng, n int) string {
 }
 
 var cpNameModes = []string{"plain", "longS", "longD", "longBoth", "prefix", "prefixRev", "DcontainsS", "ScontainsD",
-	"targetBase", "parentName", "parentInName", "same", "dotted", "crossParent", "XisS", "TcontainsS"}
+	"targetBase", "parentName", "parentInName", "same", "dotted", "crossParent", "XisS", "TcontainsS", "midD", "midS"}
 
 func cpGenNames(r *Rng) cpNames {
 	n := cpNames{S: "src", D: "dst", T: "target", X: "real", PA: "A", PB: "B", PC: "C", PE: "E"}
@@ -625,6 +625,11 @@ func cpGenNames(r *Rng) cpNames {
 		n.S = "s" + cpLetters(r, 200+r.intn(36))
 	case "longD":
 		n.D = "d" + cpLetters(r, 200+r.intn(36))
+	case "midD":
+		// long enough that a renamed entry crosses the 100-byte header limit in its link name only, or its name only
+		n.D = "d" + cpLetters(r, 48+r.intn(50))
+	case "midS":
+		n.S = "s" + cpLetters(r, 48+r.intn(50))
 	case "longBoth":
 		common := cpLetters(r, 200+r.intn(30))
 		n.S, n.D = common+"a", common+"b"
@@ -769,6 +774,18 @@ func (b *cpBuilder) dirContents(r *Rng, root string, bases []string) {
 				n.Path = root + "/" + bases[0] + ".hl"
 				b.try(n)
 			}
+		}
+	}
+	if r.chance(1, 3) {
+		// a hard-link pair whose first name (the one that becomes the link target in the archive) is long
+		// and whose second is short
+		b.grp++
+		n := cpFileNode(r, root+"/a"+strings.Repeat("t", 30+r.intn(25)), "hard-long-target")
+		n.Group = b.grp
+		if b.ok(n) {
+			b.put(n)
+			n.Path = root + "/z"
+			b.try(n)
 		}
 	}
 	if r.chance(1, 3) {
